@@ -74,6 +74,9 @@ def run_impl(names, ops):
     probs = []
     seen = {}
 
+    shared = (len(ops) + len(names)) % 2 == 1       # every second history: ONE decorator object wraps all the functions
+    shared_deco = tr.trace()
+
     def make(i):
         def inner(*a, **k):
             seen['args'] = (a, k)
@@ -81,7 +84,7 @@ def run_impl(names, ops):
                 raise excs[seen['tok']]
             return objs[seen['tok']]
         inner.__name__ = names[i]
-        return tr.trace()(inner)
+        return (shared_deco if shared else tr.trace())(inner)
 
     try:
         tr.clear_trace()
